@@ -39,6 +39,66 @@ def oracle_months(hours: Fraction) -> Fraction:
     raise AssertionError
 
 
+def files_worker(job):
+    """Real designs through the manager, one after the other IN ONE PROCESS, each written with
+    write_output_files into its own directory; returns what the written files say next to what went in."""
+    import csv
+    import json
+    import os
+    import shutil
+    import tempfile
+    from pathlib import Path
+
+    os.environ["OMP_NUM_THREADS"] = "1"
+    out = []
+    base = Path(tempfile.mkdtemp(prefix="c19_", dir=os.environ.get("VERIF_SCRATCH", None)))
+    try:
+        for k, cfg in enumerate(job):
+            rec = {"k": k, "geom": cfg["geom"][0]}
+            try:
+                with ghelib.quiet():
+                    m = ghelib.build_manager(cfg)
+                    m.find_design()
+                    m.prepare_results("p", "n", "a", "i")
+                    d = base / f"d{k}"
+                    suffix = "" if k % 2 == 0 else f"_run{k}"
+                    m.write_output_files(d, suffix)
+                ghe = m._search.ghe
+                rec["coords"] = [[float(x), float(y)] for x, y in ghe.gFunction.bore_locations]
+                rec["H"] = float(ghe.bhe.b.H)
+                g, gb = ghe.grab_g_function(ghe.B_spacing / float(ghe.bhe.b.H))
+                rec["curve"] = [[float(a), float(b), float(c)] for a, b, c in zip(g.x, g.y, gb.y)]
+                rec["times"] = [float(t) for t in ghe.times]
+                rec["hp_eft"] = [float(t) for t in ghe.hp_eft]
+                rec["files"] = sorted(f.name for f in d.iterdir())
+                rec["suffix"] = suffix
+                rd = lambda name: list(csv.reader(open(d / f"{name}{suffix}.csv", newline="")))  # noqa: E731
+                rec["loadings"] = rd("Loadings")
+                rec["borefield"] = rd("BoreFieldData")
+                rec["gfunction"] = rd("Gfunction")
+                rec["summary"] = json.loads((d / f"SimulationSummary{suffix}.json").read_text())["simulation_results"]
+                rec["summary"].pop("monthly_temp_summary", None)
+            except Exception as e:  # noqa: BLE001
+                rec["error"] = f"{type(e).__name__}: {e}"[:300]
+            out.append(rec)
+    finally:
+        shutil.rmtree(base, ignore_errors=True)
+    return out
+
+
+def file_jobs(rng, tier):
+    """Small, quick designs of different methods and field sizes, several per process."""
+    def cfg(kind, scale, months):
+        phys = ghelib.default_physics()
+        loads = [x * scale for x in ghelib.atlanta_loads()]
+        geom = {"NEARSQUARE": ("NEARSQUARE", 5.0 + rng.randrange(0, 3), 40.0 + rng.randrange(0, 40)),
+                "RECTANGLE": ("RECTANGLE", 60.0 + rng.randrange(0, 30), 30.0 + rng.randrange(0, 20), 4.0, 9.0)}[kind]
+        return {"phys": phys, "pipe": "SINGLEUTUBE", "loads": loads, "months": months, "max_eft": 35.0, "min_eft": 5.0, "max_h": 135.0,
+                "min_h": 60.0, "flow": phys["flow"], "geom": geom}
+    n = 1 if tier == "quick" else 4
+    return [[cfg("NEARSQUARE", rng.choice([0.02, 0.05]), 12), cfg("RECTANGLE", rng.choice([0.08, 0.15]), 24), cfg("NEARSQUARE", 0.1, 12)] for _ in range(n)]
+
+
 def run(ctx: core.Ctx):
     from ghedesigner.output import OutputManager
 
@@ -164,7 +224,41 @@ def run(ctx: core.Ctx):
             ctx.finding("gfunction-time-order", "Gfunction table time column not strictly increasing", {"phys": phys, "x": xsg})
         if [list(map(float, r)) for r in grows[1:]] != [[float(a), float(b), float(c)] for a, b, c in zip(g.x, g.y, gb.y)]:
             ctx.finding("gfunction-rows", "Gfunction table rows differ from the curve used in the simulation", {"phys": phys})
-    ctx.programs = 5
+    # ---------------------------------------------------------------- the written files of real designs
+    # (several designs per process, alternating file suffixes): each file must hold ITS table
+    jobs = file_jobs(rng, ctx.tier)
+    for job, recs in zip(jobs, core.pool_map(files_worker, jobs)):
+        for cfg, rec in zip(job, recs):
+            ctx.case(("files", rec["k"], rec["geom"], len(rec.get("coords", []))), True, {"written_files_of": rec["geom"], "boreholes": len(rec.get("coords", []))})
+            ctx.count("written-file designs")
+            if "error" in rec:
+                ctx.broken.append(f"written-files: design {rec['k']} ({rec['geom']}) could not be produced: {rec['error']}")
+                continue
+            where = {"design_sequence": [c["geom"][0] for c in job[: rec["k"] + 1]], "k": rec["k"], "suffix": rec["suffix"], "geom": cfg["geom"], "scale_of_atlanta_loads": cfg["loads"][4000] / (ghelib.atlanta_loads()[4000] or 1)}
+            want_files = sorted(f"{n}{rec['suffix']}.{e}" for n, e in (("BoreFieldData", "csv"), ("Gfunction", "csv"), ("Loadings", "csv"), ("SimulationSummary", "json"), ("SimulationSummary", "txt"), ("TimeDependentValues", "csv")))
+            if rec["files"] != want_files:
+                ctx.finding("files-written", f"write_output_files wrote {rec['files']}, expected {want_files}", where)
+            lo = rec["loadings"]
+            ok = len(lo) == 8761 and all([int(r[0]), int(r[1]), int(r[2]), int(r[3])] == [*oracle_label(i), i] and float(r[4]) == cfg["loads"][i] for i, r in enumerate(lo[1:]))
+            if not ok:
+                i = next((i for i, r in enumerate(lo[1:]) if i >= 8760 or [int(r[0]), int(r[1]), int(r[2]), int(r[3])] != [*oracle_label(i), i] or float(r[4]) != cfg["loads"][i]), None)
+                ctx.finding("loadings-file", f"Loadings{rec['suffix']}.csv of design {rec['k']} has {len(lo) - 1} rows; row {i} is {lo[i + 1] if i is not None and i + 1 < len(lo) else None}, the input load there is {cfg['loads'][i] if i is not None and i < 8760 else None} labelled {oracle_label(i) if i is not None and i < 8760 else None}", where)
+            bf = [[float(a), float(b)] for a, b in rec["borefield"][1:]]
+            if bf != rec["coords"] or rec["borefield"][0] != ["x", "y"]:
+                ctx.finding("borefield-file", f"BoreFieldData{rec['suffix']}.csv of design {rec['k']} lists {len(bf)} rows that are not the {len(rec['coords'])} selected coordinates in order", {**where, "file_rows": bf[:5], "selected": rec["coords"][:5]})
+            gf = [[float(v) for v in r] for r in rec["gfunction"][1:]]
+            if not all(a[0] < b[0] for a, b in zip(gf, gf[1:])):
+                ctx.finding("gfunction-file-order", f"Gfunction{rec['suffix']}.csv of design {rec['k']}: time column not strictly increasing", where)
+            if gf != rec["curve"]:
+                ctx.finding("gfunction-file-rows", f"Gfunction{rec['suffix']}.csv of design {rec['k']} differs from the curve used in the simulation at the returned height {rec['H']}", where)
+            for key, pick in (("max_hp_eft", max), ("min_hp_eft", min)):
+                v = pick(rec["hp_eft"])
+                t = rec["times"][rec["hp_eft"].index(v)]
+                want = float(oracle_months(core.frac(t)))
+                got_v, got_t = rec["summary"][key]["value"], rec["summary"][key + "_time"]["value"]
+                if got_v != v or abs(got_t - want) > 1e-9 * max(1.0, want):
+                    ctx.finding("summary-extreme-time", f"summary {key} = {got_v} at {got_t} months; the simulated series has {v} at hour {t} = {want} months", where)
+    ctx.programs = 6
     ctx.exhaustive = False
     ctx.extra["exhaustive_part"] = "ghe_time_convert over all 8760 hours"
     if ctx.tier == "thorough":
